@@ -77,7 +77,8 @@ def write_files(sc, work):
             W = _np.stack([((f + kk + ii + 2 * jj) % 5 - 2) / 64.0 for f in fnum[a:b]])
         name = os.path.join(work, fnames[n])
         make_roms(name, imax=imax, jmax=jmax, N=N, times=sc["ftimes"][a:b], mask=np.array(sc["M"], float),
-                  h=np.array(sc["H"], float), hc=0.0, landfill=((1.0e37, _rect(sc)) if sc["fm"].get("c", 0) % 2 else None), Cs_r=np.array([num / den for num, den in cs_of(sc)]),
+                  # land fill: ROMS' own fill value 1e37, or nan as other tools write it
+                  h=np.array(sc["H"], float), hc=0.0, landfill=(((1.0e37 if sc["fm"].get("c", 0) % 4 == 1 else float("nan")), _rect(sc)) if sc["fm"].get("c", 0) % 2 else None), Cs_r=np.array([num / den for num, den in cs_of(sc)]),
                   dx=(np.array(sc["dxarr"], float) if sc.get("dxarr") else sc.get("dx", 128.0) * (2.0 if (n > 0 and sc.get("grid_variant_in_later_files")) else 1.0)),
                   dy=(np.array(sc["dyarr"], float) if sc.get("dyarr") else sc.get("dy")),
                   # u and v packed with different scale factors and differently in every file: scale_factor with add_offset = 0, scale_factor alone
